@@ -192,6 +192,7 @@ import BGV
 #print axioms BGV.C11_findAllGeodesics
 #print axioms BGV.C11_findGeodesicsFromVertex
 #print axioms BGV.C11_findAllGeodesicsFromVertex
+#print axioms BGV.C11_findSourceVertex_spec
 
 -- C12
 #print axioms BGV.C12_dijkstra_correct
